@@ -750,9 +750,11 @@ func (ex *Exec) allocSlice(elem types.Type, l64, c64 *Term) Slice {
 		}
 		return Slice{Arr: ex.newDense(elem, int(k)), Off: ex.i64(0), Len: l64, Cap: c64}
 	}
-	if !scalarType(elem) {
-		// a functional array cannot hold pointers or aggregates (its cells are
-		// terms): the length is enumerated, one path per feasible value
+	if !scalarType(elem) && ex.Params["@concmake"] != 0 {
+		// a functional array cannot hold pointers or aggregates that are read
+		// back at a symbolic index: on request (run parameter @concmake, for
+		// harnesses in which a packet chooses the length) the length is
+		// enumerated, one path per feasible value
 		k := ex.concretize(c64, "capacity of a slice of non-scalar elements")
 		ck := ex.i64(k)
 		if _, ok := constInt(l64); !ok {
